@@ -69,7 +69,7 @@ func (in *Interp) runBlock(fr *frame, b *ssa.BasicBlock, prev *ssa.BasicBlock) (
 			default:
 				t := make(Tuple, len(x.Results))
 				for i, r := range x.Results {
-					t[i] = in.get(fr, r)
+					t[i] = in.returnOperand(fr, x, r)
 				}
 				fr.result = t
 			}
@@ -91,6 +91,39 @@ func (in *Interp) runBlock(fr *frame, b *ssa.BasicBlock, prev *ssa.BasicBlock) (
 		}
 	}
 	panic("block without terminator")
+}
+
+// returnOperand evaluates one operand of a multi-value return. go/ssa reads a plain variable operand before it
+// evaluates the calls of the same return statement; the gc compiler reads it after them
+// ("return m, m.Unmarshal(buf)" returns the filled m). The spec leaves the order open; we follow gc,
+// which is what runs: a load of a local variable that belongs to this return statement and is followed by a
+// call in the same block is redone here.
+func (in *Interp) returnOperand(fr *frame, ret *ssa.Return, r ssa.Value) Value {
+	u, ok := r.(*ssa.UnOp)
+	if !ok || u.Op != token.MUL || u.Block() != ret.Block() || u.Pos() == token.NoPos || ret.Pos() == token.NoPos || u.Pos() < ret.Pos() {
+		return in.get(fr, r)
+	}
+	if _, isAlloc := u.X.(*ssa.Alloc); !isAlloc {
+		return in.get(fr, r)
+	}
+	seen, callAfter := false, false
+	for _, ins := range ret.Block().Instrs {
+		if ins == ssa.Instruction(u) {
+			seen = true
+			continue
+		}
+		if seen {
+			if _, isCall := ins.(*ssa.Call); isCall {
+				callAfter = true
+				break
+			}
+		}
+	}
+	if !callAfter {
+		return in.get(fr, r)
+	}
+	p := in.get(fr, u.X).(Ptr)
+	return in.load(p.c)
 }
 
 func (in *Interp) panicMsg(v Value) string {
@@ -357,6 +390,22 @@ func (in *Interp) binop(op token.Token, xt types.Type, a, b Value) Value {
 				z := c.Eq(y, c.BVConst(0, y.S.W))
 				if in.branch(z) {
 					in.throw("runtime error: integer divide by zero")
+				}
+				// division of a provably small non-negative value by a constant: compute in a narrow width
+				// (64-bit division circuits are what makes these queries slow; the result is the same under
+				// the bounds already on the path condition)
+				if y.IsConst() && y.C > 0 {
+					if rx := in.urange(x, 6); rx.hi < 1<<16 && y.C < 1<<16 {
+						nw := 16
+						if rx.hi < 1<<8 && y.C < 1<<8 {
+							nw = 8
+						}
+						nx, ny := c.Extract(x, nw-1, 0), c.BVConst(y.C, nw)
+						if op == token.QUO {
+							return c.ZExt(c.UDiv(nx, ny), x.S.W)
+						}
+						return c.ZExt(c.URem(nx, ny), x.S.W)
+					}
 				}
 				if op == token.QUO {
 					if signed {
